@@ -12,9 +12,12 @@ RULE = ('every kind of generated deck (flat partitions with complements and empt
         'reader parses the written bytes and evaluates WellFormed clause by clause (ids unique, references defined, '
         'declared counts, no surface on both sides, one composition per non-virtual volume, COMPOSITION count, '
         'finite numbers). Non-trivial = file has at least one UNION/INTE operator; distinct = distinct (deck, options).')
-NOT_PROVED = ['write/parse round trip of the writers as a theorem (it is checked per file by the fidelity stream: the Lean '
-              'reader must find in the bytes exactly the dictionaries writeT4Geometry was handed)',
-              'ids unique / declared counts / one composition per volume / finite numbers: properties of the writers, '
+NOT_PROVED = ['write/parse round trip is a theorem for VOLU lines only (volume_line_roundtrip, at the level of words: that '
+              'splitting the joined line at blanks gives the words back is not proved); SURF / TRANSFORM lines carry floats '
+              '(opaque in the kernel) and the COMPOSITION / GEOMCOMP / BOUNDARY_CONDITION blocks have no writer model: '
+              'checked per file by the fidelity stream (the Lean reader must find in the bytes exactly the dictionaries '
+              'writeT4Geometry was handed)',
+              'ids unique / one composition per volume / finite numbers: properties of the writers, '
               'evaluated on the bytes of every file, not theorems']
 ASSUMPTIONS = []
 
@@ -22,7 +25,7 @@ ASSUMPTIONS = []
 def plan(tier):
     q = tier == 'quick'
     return [('wf', 320 if q else 6000, {}), ('coincident', 120 if q else 2000, {}), ('fidelity', 150 if q else 3000, {}),
-            ('flagged-unused', 4 if q else 20, {})]
+            ('flagged-unused', 4 if q else 20, {}), ('volstr', 150 if q else 3000, {})]
 
 
 def search_plan(tier, disagreements):
@@ -104,6 +107,10 @@ def run_case(stream, seed, ctx, params):
     rng = random.Random(seed)
     if stream == 'fidelity':
         return fidelity_case(seed, rng, ctx)
+    if stream == 'volstr':
+        # VolumeT4.__str__ vs volLine, the writer model volume_line_roundtrip is about
+        from . import c18
+        return c18.volstr_case(seed, rng, ctx)
     if stream == 'flagged-unused':
         # the configuration of the open finding F2c (= F2b seen from C08), built on purpose: a flagged surface card
         # that bounds no converted cell
